@@ -146,6 +146,8 @@ fn f64_3d(d: &mut Draw) -> Outcome {
         1 => (d.int(-12, 12) as f64) * std::f64::consts::FRAC_PI_2 + d.f64_slog(1e-14, 1e-3),
         // many turns: sin/cos of the float angle itself are what the statement names, whatever its size
         2 => d.f64_slog(20.0, 1e15),
+        // exactly the float nearest to a multiple of a quarter turn, either sign
+        3 => (d.int(-12, 12) as f64) * std::f64::consts::FRAC_PI_2,
         _ => d.f64_in(-20.0, 20.0),
     };
     let t = gen_t(d);
@@ -159,7 +161,9 @@ fn f64_3d(d: &mut Draw) -> Outcome {
     // a Deg argument reaches the trigonometric functions through one rounded multiplication: 2 eps |t| in the angle
     let conv = if use_deg { 4.0 * f64::EPSILON * t.abs() } else { 0.0 };
     let tol = (1e-12 + conv) * (1.0 + v.magnitude());
-    let deg = Deg(t * 180.0 / std::f64::consts::PI);
+    // (an exact quarter-turn multiple is handed over as the exact number of degrees)
+    let q4 = t / std::f64::consts::FRAC_PI_2;
+    let deg = if q4 == q4.round() && q4.abs() <= 12.0 { Deg(q4 * 90.0) } else { Deg(t * 180.0 / std::f64::consts::PI) };
     let (m3, m4, b3, qt): (Matrix3<f64>, Matrix4<f64>, Basis3<f64>, Quaternion<f64>) = if use_deg {
         (Matrix3::from_axis_angle(axis, deg), Matrix4::from_axis_angle(axis, deg), Rotation3::from_axis_angle(axis, deg), Rotation3::from_axis_angle(axis, deg))
     } else {
